@@ -2,7 +2,7 @@
     Everything is proved for every [cfg] (all capacities of chanIn and chanOut,
     zero included) and every schedule (= every list of labels that [run]
     accepts from [init]); no bound on burst lengths. *)
-From Verif Require Import Base.Prelude Queue.Queue.
+From Verif Require Import Base.Prelude Queue.Queue Queue.QueueCorr.
 
 Local Arguments step : simpl never.
 
@@ -469,4 +469,60 @@ Proof.
     + intro Hstuck. destruct (done s') eqn:Hd; [reflexivity|].
       destruct (quit_enabled c s' Hs' Hd) as (s2 & Hq & _).
       rewrite (Hstuck WQuit eq_refl) in Hq. discriminate.
+Qed.
+
+(** * The correspondence checker accepts only external projections of runs *)
+
+Definition ext_sends (es : list ext) : list item :=
+  flat_map (fun e => match e with ESend x => [x] | _ => [] end) es.
+Definition ext_recvs (es : list ext) : list item :=
+  flat_map (fun e => match e with ERecv y => [y] | _ => [] end) es.
+
+Lemma list_eqb_eq {A} (f : A -> A -> bool) :
+  (forall a b, f a b = true -> a = b) ->
+  forall l1 l2, list_eqb f l1 l2 = true -> l1 = l2.
+Proof.
+  intros Hf. induction l1 as [|a l1 IH]; destruct l2 as [|b l2]; simpl; intro H;
+    try discriminate; [reflexivity|].
+  apply andb_true_iff in H. destruct H as [H1 H2].
+  rewrite (Hf _ _ H1), (IH _ H2). reflexivity.
+Qed.
+
+Lemma ext_eqb_eq a b : ext_eqb a b = true -> a = b.
+Proof.
+  destruct a, b; simpl; intro H; try discriminate; try reflexivity;
+    apply N.eqb_eq in H; subst; reflexivity.
+Qed.
+
+Lemma observe_hist c ls : forall s es,
+  observe c s ls = Some es ->
+  exists s', run c s ls = Some s' /\
+    sent s' = sent s ++ ext_sends es /\ rcvd s' = rcvd s ++ ext_recvs es.
+Proof.
+  induction ls as [|l ls IH]; simpl; intros s es H.
+  - inv H. exists s. simpl. rewrite !app_nil_r. repeat split.
+  - destruct (step c s l) as [s1|] eqn:E; [|discriminate].
+    destruct (observe c s1 ls) as [es1|] eqn:O; [|discriminate].
+    destruct (IH s1 es1 O) as (s' & Hrun & Hs & Hr).
+    pose proof (step_sent _ _ _ _ E) as Ss. pose proof (step_rcvd _ _ _ _ E) as Sr.
+    exists s'. split; [exact Hrun|].
+    destruct l; try (inv H; rewrite Hs, Hr, Ss, Sr, ?app_nil_r; split; reflexivity).
+    + (* Send *) inv H. simpl. rewrite Hs, Hr, Ss, Sr, <- app_assoc. split; reflexivity.
+    + (* Recv *) destruct Sr as (v & Hv & Sr). rewrite Hv in H. inv H. simpl.
+      rewrite Hs, Hr, Ss, Sr, app_nil_r, <- app_assoc. split; reflexivity.
+Qed.
+
+Theorem accepted_is_model_run c script :
+  model_accepts c script = true ->
+  exists ls s, run c init ls = Some s /\ observe c init ls = Some script /\
+    sent s = ext_sends script /\ rcvd s = ext_recvs script /\
+    exists rest, ext_sends script = ext_recvs script ++ rest.
+Proof.
+  unfold model_accepts. intro H.
+  destruct (search c script) as [ls|]; [|discriminate].
+  destruct (observe c init ls) as [es|] eqn:O; [|discriminate].
+  apply (list_eqb_eq ext_eqb ext_eqb_eq) in H. subst es.
+  destruct (observe_hist c ls init script O) as (s & Hrun & Hs & Hr). simpl in Hs, Hr.
+  exists ls, s. repeat split; auto.
+  destruct (received_prefix c ls s Hrun) as [rest E]. exists rest. congruence.
 Qed.
